@@ -79,6 +79,13 @@ func (l listModel) apply(o SPOp) listModel {
 			out = append(out, spec.Pair{Name: n, Value: v})
 		}
 		return out
+	case "iterate":
+		// Iterate with a callback that edits every pair in place
+		out := append(listModel(nil), l...)
+		for i := range out {
+			out[i].Value += "x"
+		}
+		return out
 	case "sort":
 		out := append(listModel(nil), l...)
 		sort.SliceStable(out, func(i, j int) bool { return out[i].Name < out[j].Name })
@@ -114,6 +121,8 @@ func applyImpl(sp *url.SearchParams, o SPOp) {
 		sp.Sort()
 	case "sortabs":
 		sp.SortAbsolute()
+	case "iterate":
+		sp.Iterate(func(p *url.NameValuePair) { p.Value += "x" })
 	case "get":
 		sp.Get(n)
 	case "getall":
@@ -314,7 +323,7 @@ func check11Ops(c Case11, r *core.Rec) {
 		if o.Name != "" || o.Op == "append" || o.Op == "set" || o.Op == "delete" {
 			names[string(o.Name)] = true
 		}
-		if o.Op == "delete" || o.Op == "set" || o.Op == "sort" || o.Op == "sortabs" {
+		if o.Op == "delete" || o.Op == "set" || o.Op == "sort" || o.Op == "sortabs" || o.Op == "iterate" {
 			cnt := 0
 			for _, p := range model {
 				if p.Name == string(o.Name) || o.Op == "sort" || o.Op == "sortabs" {
@@ -466,7 +475,7 @@ func Gen11(t *rapid.T) Case11 {
 		c.Mode = "ops"
 		c.Query = B(genQuery(t))
 		n := rapid.IntRange(1, 12).Draw(t, "nops")
-		ops := []string{"append", "append", "append", "delete", "delete", "set", "set", "sort", "sort", "sortabs", "get", "getall", "has", "string", "reinit"}
+		ops := []string{"append", "append", "append", "delete", "delete", "set", "set", "sort", "sort", "sortabs", "get", "getall", "has", "string", "reinit", "iterate"}
 		for i := 0; i < n; i++ {
 			o := SPOp{Op: gen.Pick(t, "op", ops)}
 			switch o.Op {
